@@ -296,6 +296,17 @@ def run(ctx, eng):
                'across different streams is not decided')
     from . import c21
     c21.check_block_continuity(ctx, eng)
+    cm.include(ctx, eng, 'C06',
+               lambda o: o.rule == 'FSM.cell' and isinstance(o.desc, str) and
+               o.desc.split('|')[1:2] and o.desc.split('|')[1] not in (
+                   'SEND_DATA', 'SEND_END_STREAM'),
+               'what is reported for the next frame depends on the state the '
+               'last step left: after every step the stream is in the state '
+               'the reference machine is in (the two cells of the known '
+               'finding F15 excepted, which report nothing)')
+    cm.include(ctx, eng, 'C19', {'FSM.goaway', 'FSM.closed-row'},
+               'after a connection error nothing more is reported: GOAWAY '
+               'closes the connection machine from every state')
     cm.include(ctx, eng, 'C09', {'ARITH.id-low', 'ORD.id-bookkeeping'},
                'a stream id is used once: every creation path (HEADERS and '
                'PUSH_PROMISE alike) refuses an id that is not above the '
